@@ -51,7 +51,8 @@ def descriptions(tier):
                     f1 = ("y", ids[1], F32, None, rng)
                     out.append(("params", [("struct", "S", (f0, f1))]))
     # 3. enums
-    for vals in ((0,), (5,), (-1,), (0, 1), (5, 0), (-1, 7), (0, 1, 2), (255, 256, 65536), (2147483647, -2147483648)):
+    for vals in ((0,), (5,), (-1,), (0, 1), (5, 0), (-1, 7), (0, 1, 2), (255, 256, 65536), (2147483647, -2147483648),
+                 (1, 1), (0, 1, 1, 2), (3, 0, 3)):  # aliases: several enumerators of one value are all kept, in source order
         out.append(("enum", [("enum", "E", tuple(("v%d" % i, v) for i, v in enumerate(vals)))]))
     # integers beyond the fixed-width slots of the reflection schema (i32 enumerator values; u32 field ids, array
     # sizes, service and method ids): the language itself puts no bound on them
